@@ -56,6 +56,7 @@ impl SessInRx {
 }
 #[derive(Clone, Copy, PartialEq, Eq)]
 pub struct IncomingChannel(pub u16);
+pub struct OutgoingChannel(pub u16);
 
 //@@ type file=fe2o3-amqp-types/src/states.rs kind=enum name=SessionState clone
 //@@ end
@@ -110,7 +111,7 @@ pub fn amqp_error(which: u8) -> (r: AmqpError) { unimplemented!() }
 #[verifier::external_body]
 pub fn connection_stop_reason_or_closed(cell: &OnceCell<ConnectionStopReason>) -> (r: ConnectionStopReason) { unimplemented!() }
 #[verifier::external_body]
-pub fn stop_reason_from_conn(r: ConnectionStopReason) -> (o: SessionStopReason) { unimplemented!() }
+pub fn stop_reason_from_conn(r: ConnectionStopReason) -> (o: SessionStopReason) ensures o == spec_stop_reason_from_conn(r) { unimplemented!() }
 
 pub struct ChanSender<T> { pub sent: Ghost<Seq<T>>, pub failures: Ghost<nat> }
 impl<T> ChanSender<T> {
@@ -171,6 +172,8 @@ impl SessS {
         ensures final(self).st == old(self).st, final(self).ch == old(self).ch,
     { unimplemented!() }
     pub fn local_state(&self) -> (r: &SessionState) ensures *r == self.st { &self.st }
+    /// Session::outgoing_channel: the channel number this session writes on
+    pub fn outgoing_channel(&self) -> (r: OutgoingChannel) ensures r.0 == self.ch { OutgoingChannel(self.ch) }
     pub fn connection_stop_reason(&self) -> (r: &OnceCell<ConnectionStopReason>) ensures *r == self.conn_stop { &self.conn_stop }
     #[verifier::external_body]
     pub fn set_session_stop_reason(&mut self, reason: SessionStopReason)
@@ -509,7 +512,63 @@ impl SessionEngine {
                     proof { lemma_ext_trans(old(self).outgoing.sent@, sl, self.outgoing.sent@); }
 //@@ end
 
+
+//@@ fn file=fe2o3-amqp/src/session/engine.rs impl=`~impl<S>SessionEngine<S>whereS:endpoint::SessionEndpoint<State=SessionState>+SendBound+Sync+'static,` name=event_loop as=event_loop_tail
+//@@ tailfrom `let session_stop_reason = match &outcome`
+//@@ addparam outcome: Result<(), SessionInnerError>
+//@@ param tx : SessOutcomeTx
+//@@ subst `(mut self,` => `(&mut self,` rule=R32
+//@@ subst `SessionStopReason::from(reason.clone())` => `stop_reason_from_conn(reason.clone())` rule=R16
+//@@ subst `connection::deallocate_session(__E1)` => `deallocate_session(__E1)` rule=R11
+//@@ subst `other.map_err(Into::into)` => `other.map_err(|e: SessionInnerError| -> (o: SessError) ensures o == inner_to_sess_error(e) { inner_into_sess_error(e) })` rule=R17
+//@@ spec
+    requires
+        tx.outcome@ == outcome,
+    ensures
+        old(self).session.stop is None ==> final(self).session.stop == Some(match outcome {
+            Err(SessionInnerError::ConnectionStopped(reason)) => spec_stop_reason_from_conn(reason),
+            Err(SessionInnerError::RemoteEndedWithError(error)) => SessionStopReason::RemoteEndedWithError(error),
+            Err(SessionInnerError::RemoteEnded) => SessionStopReason::RemoteEnded,
+            _ => SessionStopReason::Ended,
+        }),                                                                                                       // [C13.session.stop-reason-matches-outcome] the links of a stopped session are told why: the peer's End (with its error), the connection's stop reason, or a plain end
+        final(self).outgoing.sent@ == old(self).outgoing.sent@,                                                    // [C13.session.nothing-after-end] tearing the engine down writes nothing on the session's channel
+//@@ end
 }
+/// session::Error (session/error.rs) and `impl From<SessionInnerError> for Error` (variant-wise, R11)
+pub enum SessError { UnattachedHandle, RemoteAttachingLinkNameNotFound, HandleInUse, IllegalState, ConnectionStopped(ConnectionStopReason), TransferFrameToSender, RemoteEnded, RemoteEndedWithError(AmqpError), UnknownTxnId }
+pub open spec fn inner_to_sess_error(e: SessionInnerError) -> SessError {
+    match e {
+        SessionInnerError::UnattachedHandle => SessError::UnattachedHandle, SessionInnerError::RemoteAttachingLinkNameNotFound => SessError::RemoteAttachingLinkNameNotFound,
+        SessionInnerError::HandleInUse => SessError::HandleInUse, SessionInnerError::IllegalState => SessError::IllegalState,
+        SessionInnerError::ConnectionStopped(r) => SessError::ConnectionStopped(r), SessionInnerError::TransferFrameToSender => SessError::TransferFrameToSender,
+        SessionInnerError::RemoteEnded => SessError::RemoteEnded, SessionInnerError::RemoteEndedWithError(x) => SessError::RemoteEndedWithError(x),
+        SessionInnerError::UnknownTxnId => SessError::UnknownTxnId,
+    }
+}
+pub fn inner_into_sess_error(e: SessionInnerError) -> (r: SessError) ensures r == inner_to_sess_error(e) {
+    match e {
+        SessionInnerError::UnattachedHandle => SessError::UnattachedHandle, SessionInnerError::RemoteAttachingLinkNameNotFound => SessError::RemoteAttachingLinkNameNotFound,
+        SessionInnerError::HandleInUse => SessError::HandleInUse, SessionInnerError::IllegalState => SessError::IllegalState,
+        SessionInnerError::ConnectionStopped(r) => SessError::ConnectionStopped(r), SessionInnerError::TransferFrameToSender => SessError::TransferFrameToSender,
+        SessionInnerError::RemoteEnded => SessError::RemoteEnded, SessionInnerError::RemoteEndedWithError(x) => SessError::RemoteEndedWithError(x),
+        SessionInnerError::UnknownTxnId => SessError::UnknownTxnId,
+    }
+}
+/// the oneshot the SessionHandle reads its result from (`end` / `on_end`); `outcome` (ghost): what the event loop ended with
+pub struct SessOutcomeTx { pub outcome: Ghost<Result<(), SessionInnerError>> }
+impl SessOutcomeTx {
+    #[verifier::external_body]
+    pub fn send(self, r: Result<(), SessError>) -> (o: Result<(), Result<(), SessError>>)
+        requires
+            self.outcome@ is Ok ==> r is Ok,                                                                            // [C13.session.result.clean-end-reported-clean]
+            self.outcome@ is Err && self.outcome@->Err_0 is RemoteEndedWithError ==> r == Err::<(), SessError>(SessError::RemoteEndedWithError(self.outcome@->Err_0->RemoteEndedWithError_0)),   // [C13.session.result.peer-end-error-reported] an error carried by the peer's End is what end() / on_end() returns
+            self.outcome@ is Err && self.outcome@->Err_0 is RemoteEnded ==> r == Err::<(), SessError>(SessError::RemoteEnded),
+    { unimplemented!() }
+}
+/// connection::deallocate_session: asks the connection engine to forget the session's channel
+#[verifier::external_body]
+pub fn deallocate_session(c: &mut ConnCtlTx, ch: OutgoingChannel) -> (r: Result<(), ChanSendError>) { unimplemented!() }
+pub uninterp spec fn spec_stop_reason_from_conn(r: ConnectionStopReason) -> SessionStopReason;
 
 } // verus!
 fn main() {}
